@@ -442,6 +442,17 @@ func (g *gen) value(t reflect.Type, depth int) (reflect.Value, *wire) {
 			if g.r.Intn(2) == 0 {
 				w.text = strings.ToUpper(w.text)
 			}
+		case reflect.TypeOf(TextLong{}):
+			var l TextLong
+			if g.r.Intn(3) == 0 {
+				l.S = g.str()
+			} else {
+				// long, with a content that identifies the value
+				unit := fmt.Sprintf("%c%x-", 'a'+rune(g.r.Intn(26)), g.r.Intn(1<<16))
+				l.S = strings.Repeat(unit, 1+g.r.Intn(120))
+			}
+			v.Set(reflect.ValueOf(l))
+			w.text = l.S
 		default:
 			panic("unknown text type " + t.String())
 		}
@@ -645,12 +656,13 @@ func eqValue(got, want reflect.Value, path string) string {
 // show renders a Go value for witnesses, following pointers.
 func show(v reflect.Value) string {
 	var sb strings.Builder
-	showInto(&sb, v, 0)
+	showInto(&sb, v, 0, false)
 	return sb.String()
 }
 
-func showInto(sb *strings.Builder, v reflect.Value, depth int) {
-	if depth > 12 {
+// showInto renders v; norm writes nil slices like empty ones.
+func showInto(sb *strings.Builder, v reflect.Value, depth int, norm bool) {
+	if depth > 40 {
 		sb.WriteString("…")
 		return
 	}
@@ -665,9 +677,9 @@ func showInto(sb *strings.Builder, v reflect.Value, depth int) {
 			return
 		}
 		sb.WriteString("&")
-		showInto(sb, v.Elem(), depth+1)
+		showInto(sb, v.Elem(), depth+1, norm)
 	case reflect.Slice:
-		if v.IsNil() {
+		if v.IsNil() && !norm {
 			sb.WriteString("nil[]")
 			return
 		}
@@ -678,7 +690,7 @@ func showInto(sb *strings.Builder, v reflect.Value, depth int) {
 			if i > 0 {
 				sb.WriteString(" ")
 			}
-			showInto(sb, v.Index(i), depth+1)
+			showInto(sb, v.Index(i), depth+1, norm)
 		}
 		sb.WriteString("]")
 	case reflect.Struct:
@@ -688,7 +700,7 @@ func showInto(sb *strings.Builder, v reflect.Value, depth int) {
 				sb.WriteString(" ")
 			}
 			sb.WriteString(v.Type().Field(i).Name + ":")
-			showInto(sb, v.Field(i), depth+1)
+			showInto(sb, v.Field(i), depth+1, norm)
 		}
 		sb.WriteString("}")
 	case reflect.String:
